@@ -692,4 +692,67 @@ def runCalls (s : PState) (cs : List Call) : PState := cs.foldl stepCall s
 def PState.view (s : PState) : Option Nat × Option Nat × Option Nat × Option (List Nat) :=
   (s.file, s.mof, s.targetNs, s.embedded)
 
+/-! ## 6. Include / dependency structure of MOF files (termination of nested compile_file) -/
+
+/-- a statement of a MOF file as far as nesting is concerned: something that makes the compiler call compile_file on
+    another file (`#pragma include`, or a superclass / class / qualifier file found on the search path), or any other
+    statement with its outcome -/
+inductive Stmt where
+  | file (f : Nat)
+  | leaf (r : Except PyExc Unit)
+
+/-- the files: `none` = not found anywhere (compile_file raises OSError) -/
+abbrev Files := Nat → Option (List Stmt)
+
+/-- the statements of one file in order; the first exception ends the compile -/
+def compileStmts (cf : Nat → Except PyExc Unit) : List Stmt → Except PyExc Unit
+  | [] => .ok ()
+  | .file g :: rest =>
+    match cf g with
+    | .ok _ => compileStmts cf rest
+    | .error e => .error e
+  | .leaf r :: rest =>
+    match r with
+    | .ok _ => compileStmts cf rest
+    | .error e => .error e
+
+/-- mirrors _mof_compiler.py: MOFCompiler.compile_file with the nesting limit (after the fix): `budget` =
+    MAX_MOF_FILE_NESTING - self._file_nesting.  The file is looked up and read first (OSError), then the limit is
+    checked (MOFDependencyError), then the content is compiled one level deeper.
+    A total function for ANY file structure — cyclic includes, files depending on themselves, missing files. -/
+def compileFileG (fs : Files) : Nat → Nat → Except PyExc Unit
+  | 0, f =>
+    match fs f with
+    | none => .error .osError
+    | some _ => .error .mofDependencyError
+  | b + 1, f =>
+    match fs f with
+    | none => .error .osError
+    | some stmts => compileStmts (compileFileG fs b) stmts
+
+/-- compile_string of a text whose statements are `stmts`, on a compiler whose limit is `limit` -/
+def compileUnitG (fs : Files) (limit : Nat) (stmts : List Stmt) : Except PyExc Unit :=
+  compileStmts (compileFileG fs limit) stmts
+
+/-- the same without the limit (the code before the fix), with explicit fuel: `none` = the recursion did not end
+    within the fuel (RecursionError in CPython) -/
+def compileFileU (fs : Files) : Nat → Nat → Option (Except PyExc Unit)
+  | 0, _ => none
+  | fuel + 1, f =>
+    match fs f with
+    | none => some (.error .osError)
+    | some stmts =>
+      let rec go : List Stmt → Option (Except PyExc Unit)
+        | [] => some (.ok ())
+        | .file g :: rest =>
+          match compileFileU fs fuel g with
+          | none => none
+          | some (.ok _) => go rest
+          | some (.error e) => some (.error e)
+        | .leaf r :: rest =>
+          match r with
+          | .ok _ => go rest
+          | .error e => some (.error e)
+      go stmts
+
 end Pywbem.Model.MofCompile
